@@ -80,6 +80,8 @@ def check(spec, tier, seed, replay=None):
         if discharged != obligations:
             badn = [n for n, v in report.items() if not (v == "closed" or v.startswith("axioms:"))]
             raise C.Failure("property theorem(s) not discharged: " + ", ".join(badn))
+        if tier == "thorough":
+            report["coqchk"] = "closed" if C.coqchk(spec.prop) else "?"
     except C.Failure as e:
         proof_failure = e
 
